@@ -8,7 +8,8 @@ from vlib import tengine, progs
 FILES = {
     "app/main.py": "def serve(x):\n    t = source()\n    sink(t)\n    helper(t)\n\ndef helper(p):\n    u = source()\n    sink(u)\n\n"
                    "def orphan():\n    w = source()\n    sink(w)\n\nv = source()\nsink(v)\n",
-    "lib/util.py": "def serve(x):\n    t = source()\n    sink(t)\n\ndef tool():\n    u = source()\n    sink(u)\n\nv = source()\nsink(v)\n",
+    "lib/util.py": "def serve(x):\n    t = source()\n    sink(t)\n\ndef tool():\n    u = source()\n    sink(u)\n\nv = source()\nsink(v)\n\n"
+                   "def ping(n):\n    p = source()\n    sink(p)\n    if n:\n        pong(n)\n\ndef pong(n):\n    q = source()\n    sink(q)\n    if n:\n        ping(n)\n",
     "web/handler.js": "function serve(x) {\n    var t = source();\n    sink(t);\n}\n\nfunction other() {\n    var u = source();\n    sink(u);\n"
                       "    serve(u);\n}\n\nvar v = source();\nsink(v);\n",
 }
@@ -17,9 +18,11 @@ LANG = {"app/main.py": "python", "lib/util.py": "python", "web/handler.js": "jav
 FLOWS = {
     ("app/main.py", "serve"): [2], ("app/main.py", "helper"): [7], ("app/main.py", "orphan"): [11], ("app/main.py", "%unit_init"): [14],
     ("lib/util.py", "serve"): [2], ("lib/util.py", "tool"): [6], ("lib/util.py", "%unit_init"): [9],
+    ("lib/util.py", "ping"): [13], ("lib/util.py", "pong"): [19],
     ("web/handler.js", "serve"): [2], ("web/handler.js", "other"): [7], ("web/handler.js", "%unit_init"): [12],
 }
-CALLS = {("app/main.py", "serve"): [("app/main.py", "helper")], ("web/handler.js", "other"): [("web/handler.js", "serve")]}
+CALLS = {("app/main.py", "serve"): [("app/main.py", "helper")], ("web/handler.js", "other"): [("web/handler.js", "serve")],
+         ("lib/util.py", "ping"): [("lib/util.py", "pong")], ("lib/util.py", "pong"): [("lib/util.py", "ping")]}
 
 INIT = "%unit_init"
 
@@ -46,6 +49,9 @@ RULESETS = {
     "rules_in_two_files": {"entry.yaml": [R(lang="javascript", method_list=["serve"])],
                            "more/python-entry.yaml": [R(method_list=["orphan"])],
                            "more/myentry.yaml": [R(method_list=["tool"])]},          # the last name is not an entry file
+    "entries_on_a_call_cycle": {"entry.yaml": [R(method_list=["ping", "pong"])]},
+    "one_entry_of_a_call_cycle": {"entry.yaml": [R(method_list=["pong"])]},
+    "entry_called_by_another_entry": {"entry.yaml": [R(method_list=["helper", "serve"], unit_name="main")]},
     "initialiser_of_one_unit": {"entry.yaml": [R(unit_path="web/", method_list=[INIT])]},
 }
 
